@@ -282,12 +282,9 @@ func (s *Storage) commit(context interpreter.ValueTransferContext, commitContrac
 		s.commitContractUpdates(context)
 	}
 
-	err := s.AccountStorage.commit()
-	if err != nil {
-		return err
-	}
-
-	// Commit the underlying slab storage's writes
+	// Meter the commit before any register is written:
+	// metering may abort the execution (computation or memory limit),
+	// and an aborted execution must not have issued any ledger writes.
 
 	slabStorage := s.PersistentSlabStorage
 
@@ -309,6 +306,15 @@ func (s *Storage) commit(context interpreter.ValueTransferContext, commitContrac
 
 	deltas := slabStorage.DeltasWithoutTempAddresses()
 	common.UseMemory(context, common.NewAtreeEncodedSlabMemoryUsage(deltas))
+
+	// Write the root registers of new account storage maps
+
+	err := s.AccountStorage.commit()
+	if err != nil {
+		return err
+	}
+
+	// Commit the underlying slab storage's writes
 
 	// TODO: report encoding metric for all encoded slabs
 	workerCount := goRuntime.NumCPU()
